@@ -212,7 +212,7 @@ def rule_b2(ctx):
     return res
 
 
-def _difference_index(body, gs, b, t):
+def _difference_index(body, gs, b, t, helpers=None):
     """Idiom  v = vec![_; L]; first = W.checked_sub(L)?; if a >= W { Err }; if a >= first { v[a - first] }:
     then a - first < W - (W - L) = L.  Returns None when the site does not have this shape at all, else (ok, text)."""
     ix = t["args"][1]
@@ -230,6 +230,9 @@ def _difference_index(body, gs, b, t):
     for (r, p) in body.trace_operand(t["args"][0]):
         if r[0] == "call" and mir.last_seg(r[2] or "") == "from_elem":
             L = body.term(r[1])["args"][1]
+        elif r[0] == "call" and helpers and r[2] in helpers:
+            # a helper that allocates as many entries as its parameter says (see B5)
+            L = body.term(r[1])["args"][helpers[r[2]][0] - 1]
     if L is None:
         return None
     Lk = src_key(body, L)
@@ -351,7 +354,7 @@ def rule_b3(ctx):
                     res.ok({"function": fid, "site": site + "[item]", "verdict": "the closure's item ranges over a vector all of whose elements were tested before (bb%d of the parent)" %
                             _item_tested_in_parent(ctx, fid)[0]})
                 elif computed:
-                    verdict = _difference_index(body, gs, b, t)
+                    verdict = _difference_index(body, gs, b, t, _allocators(ctx, [c for c in {mir.callee(t2) for _b2, t2 in body.calls()} if c]))
                     if verdict is None:
                         undecided.append("%s %s: computed index" % (fid, mir.span_str(t["sp"])))
                     elif verdict[0]:
@@ -449,28 +452,112 @@ def rule_b4(ctx):
     return res
 
 
+def _allocators(ctx, ids):
+    """Helper functions that allocate as many entries as a parameter says: fid -> (index of the size parameter, fallible?).
+    Fallible: try_reserve(_exact)(param) dominates the allocation and one edge of the test of its result does not reach it."""
+    out = {}
+    for fid in ids:
+        if not ctx.has_fn(fid):
+            continue
+        b = ctx.body(fid)
+        reserves, sized = [], []
+        for blk, t in b.calls():
+            seg = mir.last_seg(mir.callee(t) or "")
+            if b.blocks[blk]["cleanup"]:
+                continue
+            if seg in ("try_reserve", "try_reserve_exact") and len(t["args"]) == 2:
+                reserves.append((blk, t, {r for (r, p) in b.trace_operand(t["args"][1]) if r[0] == "arg"}))
+            elif seg in ("resize", "resize_with", "from_elem", "with_capacity", "reserve", "reserve_exact"):
+                a = t["args"][1] if seg in ("resize", "resize_with", "reserve", "reserve_exact") else (t["args"][-1] if seg == "from_elem" else t["args"][0])
+                args = {r for (r, p) in b.trace_operand(a) if r[0] == "arg"}
+                if args:
+                    sized.append((blk, t, args))
+        if not sized:
+            continue
+        fallible = True
+        for blk, t, args in sized:
+            good = False
+            for rb, rt, rargs in reserves:
+                if rargs == args and b.dominates(rb, blk):
+                    sw = _first_switch(b, rt.get("target"))
+                    if sw is not None and any(not b.path(tgt, [blk]) for tgt in b.succs(sw) if not b.blocks[tgt]["cleanup"]):
+                        good = True
+            fallible = fallible and good
+        out[fid] = (next(iter(sized[0][2]))[1], fallible)
+    return out
+
+
+def _first_switch(body, b):
+    """The first branching block from b on (through the calls that re-wrap a Result: ok(), branch(), is_err())."""
+    for _ in range(10):
+        if b is None:
+            return None
+        t = body.blocks[b]["term"]
+        if t["k"] == "switch":
+            return b
+        nxt = [x for x in body.succs(b) if not body.blocks[x]["cleanup"]]
+        if len(nxt) != 1:
+            return None
+        b = nxt[0]
+    return None
+
+
+def _failure_is_error(body, b, t):
+    """The Option / Result a fallible allocator returns is tested and one edge of the test is a straight line to `return Err`."""
+    from .C16 import leads_to_err
+    holders = {t["dest"]["l"]}
+    for _ in range(3):
+        for blk in body.blocks:
+            for st in blk["stmts"]:
+                if st["k"] == "assign" and st["rv"]["k"] in ("aggregate", "use"):
+                    ops = st["rv"].get("ops", []) if st["rv"]["k"] == "aggregate" else [st["rv"]["op"]]
+                    if any(o.get("k") in ("copy", "move") and o["place"]["l"] in holders for o in ops):
+                        holders.add(st["place"]["l"])
+    for x, blk in enumerate(body.blocks):
+        if blk["cleanup"] or blk["term"]["k"] != "switch":
+            continue
+        if any(st["k"] == "assign" and st["rv"]["k"] == "discriminant" and st["rv"]["place"]["l"] in holders for st in blk["stmts"]):
+            if any(leads_to_err(body, tgt) for tgt in body.succs(x)):
+                return True
+    return False
+
+
 def rule_b5(ctx):
     """`vec![x; n]` with n taken from the header aborts the process (capacity overflow / failed allocation) for absurd n; every
-    table the importer sizes by a number from the file has to come after a rejecting comparison of the declared wire count with
-    the number of lines the file really has (every non-input wire needs a line of its own)."""
-    res = RuleResult("B5", "tables sized by numbers from the file are allocated only after the declared wire count was compared with the length of the file")
+    table the importer sizes by a number from the file is either sized by the very number that a rejecting comparison bounds by
+    the number of lines the file really has, or allocated by a helper that reserves fallibly (try_reserve) and whose failure is
+    turned into an error."""
+    res = RuleResult("B5", "tables sized by numbers from the file: the allocated number itself is bounded by the length of the file, or the allocation is fallible and its failure an error")
     root, ids = importer_bodies(ctx)
     body = ctx.body(root)
+    callees = {mir.callee(t) for b, t in body.calls()}
+    helpers = _allocators(ctx, [c for c in callees if c])
     allocs = []
+
+    def tainted(size):
+        return size["k"] in ("copy", "move") and any(r[0] == "call" and mir.last_seg(str(r[2])) in TAINT_SEGS for (r, p) in body.deep_sources(size, 4))
     for b, t in body.calls():
-        seg = mir.last_seg(mir.callee(t) or "")
-        if seg in ("from_elem", "with_capacity") and not body.blocks[b]["cleanup"]:
+        if body.blocks[b]["cleanup"]:
+            continue
+        cal = mir.callee(t) or ""
+        seg = mir.last_seg(cal)
+        if seg in ("from_elem", "with_capacity"):
             size = t["args"][-1] if seg == "from_elem" else t["args"][0]
-            if size["k"] in ("copy", "move") and any(r[0] == "call" and mir.last_seg(str(r[2])) in TAINT_SEGS for (r, p) in body.deep_sources(size, 4)):
-                allocs.append((b, t))
+            if tainted(size):
+                allocs.append((b, t, size, "direct"))
+        elif seg in ("resize", "resize_with", "reserve", "reserve_exact") and len(t["args"]) >= 2 and tainted(t["args"][1]):
+            allocs.append((b, t, t["args"][1], "direct"))
+        elif cal in helpers and tainted(t["args"][helpers[cal][0] - 1]):
+            allocs.append((b, t, t["args"][helpers[cal][0] - 1], "fallible" if helpers[cal][1] else "direct"))
     if len(allocs) < 2:
         raise AnchorMissing("B5: expected the tables sized by header numbers (at least 2), found %d" % len(allocs))
-    # guards: rejecting comparisons one side of which is the number of remaining lines
+    # guards: rejecting comparisons one side of which is the number of remaining lines; remembered with the origins of the other side
     file_guards = []
     for (gb, gkeys, kind, g) in guards(body):
         if kind != "compare" or not rejecting(body, g):
             continue
-        for o in (g["rv"]["l"], g["rv"]["r"]):
+        sides = (g["rv"]["l"], g["rv"]["r"])
+        for i, o in enumerate(sides):
             if o["k"] not in ("copy", "move"):
                 continue
             for (r, p) in body.trace(o["place"], through={}):
@@ -478,14 +565,24 @@ def rule_b5(ctx):
                     c = body.term(r[1])
                     # the collection of the file's lines (Vec<String> or its IntoIter)
                     if c["args"] and c["args"][0]["k"] in ("copy", "move") and "String" in c["args"][0]["place"]["ty"] and "usize" not in c["args"][0]["place"]["ty"]:
-                        file_guards.append(gb)
-    for b, t in allocs:
-        if any(body.dominates(g, b) for g in file_guards):
-            res.ok({"allocation": "line %d" % t["sp"][1], "verdict": "after the wire count was compared with the number of lines of the file"})
+                        file_guards.append((gb, body.trace_operand(sides[1 - i])))
+    for b, t, size, how in allocs:
+        where = "line %d" % t["sp"][1]
+        if how == "fallible":
+            # the caller turns the failure (None / Err) into an error
+            if _failure_is_error(body, b, t):
+                res.ok({"allocation": where, "verdict": "allocated by a helper that reserves with try_reserve before it fills the table; its failure is an error of the file"})
+            else:
+                res.bad(Finding("B5", root, "failure of the fallible allocation is not an error", "the result of the allocating helper is not turned into an error", t["sp"]))
+            continue
+        origins = body.trace_operand(size)
+        same = [gb for (gb, other) in file_guards if body.dominates(gb, b) and other & origins]
+        if same:
+            res.ok({"allocation": where, "verdict": "the allocated number itself was compared with the number of lines of the file"})
         else:
             res.bad(Finding("B5", root, "table sized by a header number without a bound",
-                            "the size comes from the header of the file and nothing compares it with what the file can define: `0 1152921504606846976` panics with capacity overflow, "
-                            "2^40 wires abort the process", t["sp"]))
+                            "the size comes from the header of the file and nothing bounds this number by what the file can define (a comparison of another quantity - e.g. the declared wires minus the "
+                            "input wires - with the length of the file does not bound it): `0 18446744073709551615` / `1 18446744073709551615` / `1 0` panics with capacity overflow, 10^14 wires abort the process", t["sp"]))
     return res
 
 
